@@ -2,6 +2,7 @@ package main
 
 import (
 	"fmt"
+	"hash/fnv"
 	"go/types"
 	"sort"
 	"strconv"
@@ -24,6 +25,7 @@ const (
 	plField = iota // struct field of an object with identity: F|S|f [ref]
 	plElem         // slice/array element: E|sort [base][idx]
 	plCell         // pointer to a non-struct value: C|sort [ref]
+	plMap          // whole contents of a map object (assigns clauses only)
 )
 
 type Place struct {
@@ -35,6 +37,7 @@ type Place struct {
 	Idx    string
 	Elem   types.Type // Go type of what is stored at the place root
 	Sub    []subStep  // path into a datatype value stored there
+	MapT   types.Type // plMap
 }
 
 type subStep struct {
@@ -278,7 +281,9 @@ func (st *sortTable) structName(t types.Type) string {
 	if n, ok := st.anon[s]; ok {
 		return n
 	}
-	n := fmt.Sprintf("anon%d", len(st.anon))
+	h := fnv.New32a()
+	h.Write([]byte(s))
+	n := fmt.Sprintf("anon%08x", h.Sum32())
 	st.anon[s] = n
 	return n
 }
